@@ -133,6 +133,9 @@ func loadContracts(files []string) (*Contracts, error) {
 		}
 		cs.Files = append(cs.Files, f)
 	}
+	if err := cs.mergeExtensions(); err != nil { // ext_c07.go: `extend func`
+		return nil, err
+	}
 	return cs, nil
 }
 
@@ -255,6 +258,13 @@ func (cs *Contracts) loadFile(path string) error {
 				}
 			} else {
 				cs.Funcs[fs.Key] = fs
+			}
+			cur, curLemma = fs, nil
+		case "extend":
+			// extend func (recv) Name: additional clauses for a contract that lives in another file (ext_c07.go)
+			fs, err := cs.beginExtend(rest, pkg, src, trusted)
+			if err != nil {
+				return fail(err)
 			}
 			cur, curLemma = fs, nil
 		case "spec", "uninterp", "rec":
